@@ -81,6 +81,10 @@ def boolBin (f : Bool → Bool → Bool) : Val → Val → Val
   | .bool a, .bool b => .bool (f a b)
   | _, _ => .err
 
+/-- SMT-LIB `bvshl`, computed without materialising `x * 2^y` for huge `y` (equal to `x <<< y`, see
+`bvShl_eq` in ClaripyProofs/Lemmas/AST/Eval.lean) -/
+def bvShl {w : Nat} (x y : BitVec w) : BitVec w := if w ≤ y.toNat then 0#w else x <<< y
+
 /-- left fold of a binary value operator over a non-empty argument list (claripy's n-ary nodes) -/
 def foldVals (f : Val → Val → Val) : List Val → Val
   | [] => .err
@@ -98,7 +102,7 @@ def applyOp (op : Op) (vs : List Val) : Val :=
   | .umod, [a, b] => bvBin (fun _ x y => x % y) a b
   | .sdiv, [a, b] => bvBin (fun _ x y => BitVec.smtSDiv x y) a b
   | .smod, [a, b] => bvBin (fun _ x y => BitVec.srem x y) a b
-  | .shl, [a, b] => bvBin (fun _ x y => x <<< y) a b
+  | .shl, [a, b] => bvBin (fun _ x y => bvShl x y) a b
   | .lshr, [a, b] => bvBin (fun _ x y => x >>> y) a b
   | .ashr, [a, b] => bvBin (fun _ x y => BitVec.sshiftRight' x y) a b
   | .rotl, [a, b] => bvBin (fun _ x y => x.rotateLeft y.toNat) a b
